@@ -552,6 +552,11 @@ func (g *Gen) binop(st *State, x *ssa.BinOp) {
 			return
 		}
 		op := map[token.Token]string{token.ADD: "+", token.SUB: "-", token.MUL: "*"}[x.Op]
+		// the synthetic "rangeindex + 1" cannot overflow: rangeindex < len <= MaxInt (auto-invariant)
+		if phi, ok := x.X.(*ssa.Phi); ok && phi.Comment == "rangeindex" && x.Op == token.ADD && b == "1" && !x.Pos().IsValid() {
+			g.setVal(x, fmt.Sprintf("(+ %s 1)", a))
+			return
+		}
 		g.arith(st, x, x.Type(), fmt.Sprintf("(%s %s %s)", op, a, b), x.Pos())
 	case token.QUO, token.REM:
 		if isFloat {
